@@ -13,9 +13,7 @@ def judge (st : St) : Bool × String :=
   if C04.ok Parse.ipVersion (Parse.skipHdr specCfg) "_source" st.mode tr then (true, "")
   else match C04.firstFail Parse.ipVersion (Parse.skipHdr specCfg) "_source" st.mode tr 0 with
     | some i =>
-      if st.gaps.reverse.getD i false then
-        (false, s!"C04 step {i}: F04a message with a location invalid by the text was notified (library tests three substrings, not the host)")
-      else (false, s!"C04 step {i}: notification / stored headers / combined headers not as the property states")
+      (false, s!"C04 step {i}: notification / stored headers / combined headers not as the property states")
     | none => (false, "C04 judge failed")
 
 def main : IO UInt32 := mainLoop genCfg specCfg judge
